@@ -8,7 +8,7 @@ where
     if matrix.height != matrix.width || matrix.height == 0 || matrix.width == 0 {
         return Err(Arr2DError::NonSquareMatrix);
     }
-    let initial_eigenvector = Arr2D::from(&[[1.0], [1.0], [1.0]]);
+    let initial_eigenvector = Arr2D::full(1.0, matrix.height, 1);
     let mut eigenvector = &matrix * initial_eigenvector;
     // Arr2D.max() only returns None if the matrix is empty
     let mut eigenvalue = eigenvector.max().unwrap(); // Matrix won't be empty here
